@@ -9,6 +9,9 @@ four radicands of `rotation()` (diagonal) and the sums/differences `a i j ± a j
 rank one on SO(3): all 2×2 minors `Q k i * Q k j = Q k k * Q i j` vanish (`minor*`, each a constant-coefficient
 combination of the relations).  Hence each branch, dividing by the root of *its own* diagonal entry, returns a
 quaternion `q` with `4 q_i q_j = Q i j`, and `Quaternion_::matrix` is linear in those products.
+
+This file is written by `tools/props/c20_so3_minors.py` (it finds the coefficients of the `minor*` proofs by exact Gaussian
+elimination; Lean re-checks each with `ring`).
 -/
 set_option linter.unusedSimpArgs false
 namespace AslProofs.RotSO3
